@@ -191,6 +191,16 @@ func conditionalUpdatesAs(c *engine.Ctx, id, onlyPkg string, min int) {
 				}
 			}
 			if !okEntry {
+				// … or the entry comes out of a snapshot map of the primitive that is filled `m[e.Key] = e` from
+				// the primitive's entry stream and is read under this very key: `for key, entry := range m` or
+				// `entry, ok := m[key]`
+				if sel, ok := ifv.Args[0].(*ast.SelectorExpr); ok && sel.Sel.Name == "Version" {
+					if id, ok := sel.X.(*ast.Ident); ok {
+						okEntry = entryOfSnapshotMap(cs.Info, cs.Decl.Body, cs.Info.Uses[id], keyArg)
+					}
+				}
+			}
+			if !okEntry {
 				o.Fail(&engine.Violation{Key: key + " IfVersion source", Pos: cs.Pos, Func: cs.Func, Msg: "IfVersion(" + got + ") is not the version of the entry read under the same key " + keyArg})
 			}
 			continue
@@ -1333,4 +1343,92 @@ func listVisitsEveryCollection(c *engine.Ctx) {
 			})
 		}
 	}
+}
+
+// entryOfSnapshotMap: entry is the element of a local map m read under the key written keyArg (range key/value
+// pair, or m[keyArg]), and every write into m has the form m[x.Key] = x with x an entry taken from a stream's Next.
+func entryOfSnapshotMap(info *types.Info, body *ast.BlockStmt, entry types.Object, keyArg string) bool {
+	if entry == nil {
+		return false
+	}
+	var m types.Object
+	ast.Inspect(body, func(n ast.Node) bool {
+		switch x := n.(type) {
+		case *ast.RangeStmt:
+			k, kok := x.Key.(*ast.Ident)
+			v, vok := x.Value.(*ast.Ident)
+			if kok && vok && info.Defs[v] == entry && k.Name == keyArg {
+				if id, ok := ast.Unparen(x.X).(*ast.Ident); ok {
+					m = info.Uses[id]
+				}
+			}
+		case *ast.AssignStmt:
+			if len(x.Lhs) >= 1 && len(x.Rhs) == 1 {
+				if lid, ok := x.Lhs[0].(*ast.Ident); ok && info.Defs[lid] == entry {
+					if ix, ok := ast.Unparen(x.Rhs[0]).(*ast.IndexExpr); ok && types.ExprString(ix.Index) == keyArg {
+						if id, ok := ast.Unparen(ix.X).(*ast.Ident); ok {
+							m = info.Uses[id]
+						}
+					}
+				}
+			}
+		}
+		return true
+	})
+	if m == nil {
+		return false
+	}
+	if _, isMap := m.Type().Underlying().(*types.Map); !isMap {
+		return false
+	}
+	fills, other := 0, 0
+	ast.Inspect(body, func(n ast.Node) bool {
+		as, ok := n.(*ast.AssignStmt)
+		if !ok {
+			return true
+		}
+		for i, l := range as.Lhs {
+			ix, ok := ast.Unparen(l).(*ast.IndexExpr)
+			if !ok {
+				continue
+			}
+			if id, ok := ast.Unparen(ix.X).(*ast.Ident); !ok || info.Uses[id] != m {
+				continue
+			}
+			good := false
+			if len(as.Rhs) == len(as.Lhs) {
+				if v, ok := ast.Unparen(as.Rhs[i]).(*ast.Ident); ok {
+					if ks, ok := ast.Unparen(ix.Index).(*ast.SelectorExpr); ok && ks.Sel.Name == "Key" {
+						if kid, ok := ks.X.(*ast.Ident); ok && info.Uses[kid] == info.Uses[v] && fromStreamNext(info, body, info.Uses[v]) {
+							good = true
+						}
+					}
+				}
+			}
+			if good {
+				fills++
+			} else {
+				other++
+			}
+		}
+		return true
+	})
+	return fills > 0 && other == 0
+}
+
+func fromStreamNext(info *types.Info, body *ast.BlockStmt, v types.Object) bool {
+	found := false
+	ast.Inspect(body, func(n ast.Node) bool {
+		as, ok := n.(*ast.AssignStmt)
+		if !ok || len(as.Rhs) != 1 || len(as.Lhs) < 1 {
+			return true
+		}
+		if lid, ok := as.Lhs[0].(*ast.Ident); ok && info.Defs[lid] == v {
+			if call, ok := as.Rhs[0].(*ast.CallExpr); ok && strings.HasSuffix(types.ExprString(call.Fun), ".Next") {
+				found = true
+			}
+		}
+		return true
+	})
+	return found
 }
